@@ -400,7 +400,9 @@ func addRaceFindings(prop string, e engine, out string, r *rep.Result) {
 			fn := ""
 			for _, ln := range strings.Split(blk, "\n") {
 				ln = strings.TrimSpace(ln)
-				if strings.HasPrefix(ln, "github.com/containerd/nri/pkg/") && !strings.Contains(ln, "/zzverif/") {
+				// only the runtime adaptation's own state is in scope of the properties these engines
+				// support (lock discipline of Adaptation / plugin objects)
+				if strings.HasPrefix(ln, "github.com/containerd/nri/pkg/adaptation.") {
 					fn = ln
 					if k := strings.Index(fn, "()"); k > 0 {
 						fn = fn[:k]
